@@ -56,7 +56,23 @@ int main(int argc, char** argv) {
   const char* why = ""; uint64_t H1, gap1; int bad = 0;
   if (!represents(q, a, H1, gap1, &why)) { printf("built state does not satisfy Inv_S: %s\n", why); return 2; }
   printf("state: capacity %llu, head position %llu, %u entries, %u burnt tickets, finalized=%d, threshold %lld\n", (unsigned long long)CAP, (unsigned long long)H, cnt, gap, fin, (long long)q._threshold.load());
-  if (op == 0) {
+  if (op == 2) {          // enqueue after a dequeuer has overtaken the tail ticket (h_enq_overtaken)
+    if (cnt || fin || gap) return 2;
+    unsigned s = scq::remap_index(H << 1, RS, N); uint64_t cycT = (H << 1) | MASK; bool safe = arr("in_safe", s);
+    if (arg("in_lifted")) q._data[s].store(safe ? cycT : (cycT ^ N)); else q._data[s].store(q._data[s].load() & ~N);
+    q._head.store((H + 1) << 1);
+    uint64_t v = arg("in_v") % CAP; bool r = do_enq<false>(q, v);
+    abs_t b = a; b.cnt = 1; b.vals[0] = v;
+    if (!r) { printf("enqueue failed\n"); bad = 1; }
+    if (!represents(q, b, H1, gap1, &why) || H1 != H + 1) { printf("after enqueue(%llu) behind an overtaking dequeuer: %s (the value is not at the head position)\n", (unsigned long long)v, why); bad = 1; }
+  } else if (op == 3) {   // dequeue overtaking an unconsumed value of the previous cycle (h_deq_stale)
+    if (cnt || fin || gap || H < N) return 2;
+    unsigned s = scq::remap_index(H << 1, RS, N); bool safe = arr("in_safe", s); uint64_t v0 = arg("in_stale_v") % CAP;
+    uint64_t old = ((((H - N) << 1) | MASK) & ~MASK) | (safe ? N : 0) | v0; q._data[s].store(old); if (q._threshold.load() < 0) q._threshold.store(0);
+    uint64_t out = 12345; bool r = q.dequeue<false, 1>(out, CAP, RS);
+    if (r || out != 12345) { printf("dequeue delivered a value of the previous cycle\n"); bad = 1; }
+    if (q._data[s].load() != (old & ~N)) { printf("the overtaken entry is %llx, expected %llx (same value, safe bit cleared)\n", (unsigned long long)q._data[s].load(), (unsigned long long)(old & ~N)); bad = 1; }
+  } else if (op == 0) {
     uint64_t v = arg("in_v") % CAP; if (cnt >= CAP) return 2;
     bool r = finalizable ? do_enq<true>(q, v) : do_enq<false>(q, v);
     abs_t b = a; bool ra = !(finalizable && fin); if (ra) { b.vals[b.cnt] = v; b.cnt++; }
@@ -68,6 +84,8 @@ int main(int argc, char** argv) {
     if (r != ra) { printf("dequeue returned %d, contract says %d\n", r, ra); bad = 1; }
     if (out != outa) { printf("dequeue delivered %llu, contract says %llu\n", (unsigned long long)out, (unsigned long long)outa); bad = 1; }
     if (!represents(q, b, H1, gap1, &why)) { printf("after dequeue: %s\n", why); bad = 1; }
+    if (!r) for (uint64_t p = H; p < H1; p++) { uint64_t pos2 = p << 1, e = q._data[scq::remap_index(pos2, RS, N)].load();
+      if (int64_t((e | MASK) - (pos2 | MASK)) < 0 && (e & N)) { printf("slot of the failed head ticket %llu is still (older, safe): an enqueuer holding that ticket could publish behind the head\n", (unsigned long long)p); bad = 1; } }
   }
   if (bool(q._tail.load() & 1) != fin) { printf("finalized bit of _tail changed: was %d, now %d (tail=%llu)\n", fin, int(q._tail.load() & 1), (unsigned long long)q._tail.load()); bad = 1; }
   printf(bad ? "VIOLATION reproduced on the real nikolaev_scq\n" : "contract holds on the real nikolaev_scq\n");
